@@ -18,6 +18,16 @@ bytes of the wider array a view was cut from); (b) everything public that D
 reports — after the call and again after the caller's overwrite — equals what T
 reports, bit for bit, and D raises exactly when T raises.
 
+Round-3 families: (1) the batch detectors fed UNIVARIATE batches as vectors
+(systems ``<detector>~vec``: 1-D ndarray, contiguous slice / strided view of a
+longer caller buffer, Series, Series wrapping a caller ndarray) — the "row vector
+is coerced into a column vector" path of ``BatchDetector._validate_X``;
+(2) overwrite pattern ``reuse``: the caller recycles ONE container per argument,
+refills it in place and passes the very same object at every call;
+(3) injector chains (systems ``<injector>~chain``): one or two injector objects
+of a class called two or three times on objects the caller already holds
+(fresh containers, results of earlier calls, an earlier input again).
+
 Because the property is about *aliasing*, explorer snapshots must not break
 aliases: ``copy.deepcopy`` of (detector, caller array) would silently turn a
 retained view into a private copy.  The node state therefore implements
@@ -1558,7 +1568,8 @@ def describe(tier):
             if pl[tier] is None:
                 continue
             plans.setdefault(name, []).append(
-                "params#%d: prefix %s + every suffix of length %d over %s; overwrite after exactly one call (each of the %d positions) and after all calls; layouts %s"
+                "params#%d: prefix %s + every suffix of length %d over %s; overwrite after exactly one call (each of the %d positions) and after all calls; layouts %s; "
+                "on layouts %s also with one recycled container per argument (refilled in place, same object passed at every call)"
                 % (
                     pl["ci"],
                     json.dumps(pl["prefix"]),
@@ -1566,13 +1577,16 @@ def describe(tier):
                     json.dumps(pl["alphabet"]) if pl["alphabet"] is not None else "the full alphabet %s" % json.dumps(fam.alphabet(fam.configs(tier)[pl["ci"]], _FreshRef())),
                     len(pl["prefix"]) + pl[tier],
                     "/".join(fam.layouts),
+                    "/".join(l for l in fam.layouts if l in REUSE_LAYOUTS),
                 )
             )
     return {
         "rule": "detectors (incl. the <detector>~vec systems: univariate batches handed over as vectors): per detector, parameter set and container layout, a scripted valid history that runs into an alarm "
         "followed by every continuation of the stated length; each such history is executed once per overwrite pattern "
-        "(after exactly one call, for every position, and after every call) on a detector fed caller-owned containers and, "
-        "in lock-step, on a twin fed private containers; injectors: every (injector, layout, data set, window, argument "
+        "(after exactly one call, for every position, and after every call; on the layouts %s also: no junk, but the caller keeps "
+        "ONE container per argument and shape, writes the next batch / observation into it in place and passes the very same object "
+        "again) on a detector fed caller-owned containers and, " % "/".join(REUSE_LAYOUTS)
+        + "in lock-step, on a twin fed private containers; injectors: every (injector, layout, data set, window, argument "
         "menu entry) is one execution, and every chain of two / three calls of the stated shape on one or two injector objects "
         "of a class is one execution; non-trivial = an execution containing a caller overwrite, an alarm or a dict argument",
         "bounds": {
